@@ -1314,6 +1314,8 @@ def gen_reuse_case(rng, k):
     natives = [dict(wn=grids[i], flux=rng.uniform(1e-4, 3e-2, n), tau=10.0 ** rng.uniform(-4, 1.5, (nl, n))) for i in order]
     a = max(g['wn'][1] for g in natives)
     b = min(g['wn'][-2] for g in natives)
+    if a >= b:      # the native grids share no interior range: request bins inside the first one (a descending request is malformed)
+        a, b = float(natives[0]['wn'][1]), float(natives[0]['wn'][-2])
     nb = int(rng.integers(2, 9))
     grid = np.linspace(a, b, nb) if rng.random() < 0.5 else np.sort(rng.uniform(a, b, nb))
     if np.min(np.diff(grid)) <= 0:
